@@ -140,7 +140,7 @@ def run(run):
         cases = K.standard_cases(hand, ["range"], [("np", 3, True), ("np", 5, False)]) + K.standard_cases(hand, ["dupint"], [("np", 4, True)])
         cases += K.standard_cases(d1 + d2 + preds, ["range"], [("np", 3, True)])
         # a skewed layout (one-row first partition, an empty partition): rules that look at "the first k partitions"
-        cases += K.standard_cases(hand + d1, ["range"], [("cuts", ((2, 0, 3, 7), (0, 3, 4)), True)]  # (the first piece must not be all-missing in the sort keys: known finding of C02))
+        cases += K.standard_cases(hand + d1, ["range"], [("cuts", ((2, 0, 3, 7), (0, 3, 4)), True)])  # the first piece must not be all-missing in the sort keys (known finding of C02)
     else:
         lays = [("np", 1, True), ("np", 2, True), ("np", 3, True), ("np", 5, True), ("np", 7, False), ("np", 3, False)]
         cases = K.standard_cases(hand, ["range", "dupint", "float", "str", "dt"], lays)
